@@ -12,7 +12,7 @@ PROPERTIES_FILE = "theories/Properties/C18.v"
 IMPL = "harness.props.c18_impl"
 SHARD = 400
 EXTRA_REQUIRE = "From Coq Require Import Uint63."
-NWORKERS = 3
+NWORKERS = 1
 RULE = ("histories of add/remove/remove-all/prefer/derive/underive/call on one multimethod with a "
         "private hierarchy over 5 namespaced keywords, :default and 3 classes (B subclasses A): "
         "every history of length <= 2 (thorough: <= 3) over a 27-operation alphabet, scenario "
@@ -348,15 +348,22 @@ def sig_f18d(case, out):
 
 FINDINGS = {"F-18d": sig_f18d}
 
+def mini(ops, univ, qs=(), tags=(), salt=0):
+    """A case with its own small universe / question list (used for the findings' witnesses)."""
+    return {"d": DFLT, "every": True, "univ": list(univ), "ops": [list(o) for o in ops],
+            "qs": [list(q) for q in qs], "tags": list(tags), "salt": salt}
+
+
+# the witnesses of the findings (docs/agents/C18.md lists the same objects for known_findings.json)
 WITNESSES = {
-    "F-18a": mk([("add", K(1), 1)]),
-    "F-18b": mk([("derive", K(1), K(2)), ("derive", K(1), K(3)), ("derive", K(1), K(4)),
-                 ("add", K(2), 1), ("add", K(3), 2), ("add", K(4), 3),
-                 ("prefer", K(2), K(3)), ("prefer", K(3), K(4))], salt=1),
-    "F-18b-diamond": mk([("derive", K(1), K(5)), ("derive", K(5), K(3)), ("derive", K(5), K(4)),
-                         ("add", K(3), 1), ("add", K(4), 2), ("add", K(5), 3)], salt=0),
-    "F-18c": mk([("derive", C(1), K(2)), ("add", K(2), 1)]),
-    "F-18d": mk([("derive", K(1), K(2)), ("add", K(2), 1), ("add", K(1), 2), ("prefer", K(2), K(1))]),
+    "F-18a": mini([("add", K(1), 1)], [K(1)], qs=[(V(K(1)), V(K(1), K(2))), (V(), V(K(1)))]),
+    "F-18b": mini([("derive", K(1), K(2)), ("derive", K(1), K(3)), ("derive", K(1), K(4)),
+                   ("add", K(2), 1), ("add", K(3), 2), ("add", K(4), 3),
+                   ("prefer", K(2), K(3)), ("prefer", K(3), K(4))], [K(1)], salt=1),
+    "F-18b-diamond": mini([("derive", K(1), K(5)), ("derive", K(5), K(3)), ("derive", K(5), K(4)),
+                           ("add", K(3), 1), ("add", K(4), 2), ("add", K(5), 3)], [K(1)]),
+    "F-18c": mini([("derive", C(1), K(2)), ("add", K(2), 1)], [C(2)], qs=[(C(2), K(2))], tags=[C(2)]),
+    "F-18d": mini([("derive", K(1), K(2)), ("add", K(2), 1), ("add", K(1), 2), ("prefer", K(2), K(1))], [K(1)]),
 }
 
 
